@@ -109,12 +109,13 @@ def replay(rp):
     print("code (0 ok / 1 tie broken / 2 property fails):", codes)
     return 0 if codes == [0] else 1
 
-TECHNIQUE = "Coq proof (induction/invariants over the two toposort loops and the backward pass, all DAGs) + exact differential correspondence of the Gallina model with autograd on generated graphs"
+TECHNIQUE = "Coq proof (induction/invariants over the two toposort loops and the backward pass, all DAGs); model proved equal to loops translated from util.toposort/core.backward_pass on every run (gen/GenTopo.v) + exact differential correspondence of the Gallina model with autograd on generated graphs"
 DESIGN_REF = "DESIGN.md 4.3"
 LEVEL_TEXT = ("Theorems for every DAG of any size and sharing pattern: the modelled toposort emits exactly the reachable "
               "nodes once, consumers first; the modelled backward pass returns the path-sum for any commutative monoid "
               "and additive rules; forward accumulation gives the same Jacobian over any commutative ring. The model is "
-              "tied to util.toposort/core.backward_pass/JVPNode by exact comparison of order, invocation log, gradient "
+              "proved equal to the loops the translator generates from the source text of util.toposort and core.backward_pass "
+              "on this run, and tied to util.toposort/core.backward_pass/JVPNode by exact comparison of order, invocation log, gradient "
               "and tangent on generated tapes and control-flow programs.")
-LEVEL_NOTE = ("Trusted: Coq kernel; hand-written model (Toposort.v, Backward.v) tied only by the correspondence run; "
+LEVEL_NOTE = ("Trusted: Coq kernel; the statement translator harness/translators/topo.py (dict as total map, list head = stack top) and the correspondence run; "
               "float64 exactness on small integers; no axioms (Print Assumptions: closed under the global context).")
